@@ -17,7 +17,9 @@ from vlib import ToolError, q_to_fraction, run_harness_stable_day, tlc
 
 LEVEL = "model_checking"
 CFG = render.cfg_with()
-PATTERNS = {"P1": "zorp {NUMBER:n}", "P2": "blip {NUMBER:n}", "P3": "{TEXT:w} quux {NUMBER:n}"}
+# P4 / P5 are read per language: a word group and an operator word of Turkish (a rule's patterns are tokenised in the rule's language)
+PATTERNS = {"P1": "zorp {NUMBER:n}", "P2": "blip {NUMBER:n}", "P3": "{TEXT:w} quux {NUMBER:n}", "P4": "her {GROUP:p:week_group} {NUMBER:n}", "P5": "{NUMBER:n} kere kere {NUMBER:m}"}
+TR_RULES = [{"name": "t1", "pats": ["P4"], "beh": "double"}, {"name": "t2", "pats": ["P4", "P5"], "beh": "usd"}, {"name": "n1", "pats": ["P5"], "beh": "double"}]
 BEH = {"double": {"kind": "num_from", "field": "n", "mul": 2, "add": 0},
        "usd": {"kind": "money_from", "field": "n", "cur": "usd"},
        "guard100": {"kind": "guard", "field": "w", "equals": "frob", "then": {"kind": "num_from", "field": "n", "mul": 1, "add": 100}},
@@ -44,6 +46,10 @@ def line_text(line):
             return "zorp " + num(line["n"])
         if line["pat"] == "P2":
             return "blip " + num(line["n"])
+        if line["pat"] == "P4":
+            return "her hafta " + num(line["n"])
+        if line["pat"] == "P5":
+            return num(line["n"]) + " kere kere 3"
         return "%s quux %s" % (line["w"], num(line["n"]))
     return "%s %s to %s" % (num(line["q"]), ITEM_NAMES[line["a"]], ITEM_NAMES[line["b"]])
 
@@ -67,11 +73,16 @@ def step_of(h):
         nm = ITEM_NAMES[it["idx"]]
         return {"op": "add_type_item", "name": h["fam"], "index": it["idx"], "format": "{value} " + nm, "parse": ["{NUMBER:value} {TEXT:type:%s}" % nm],
                 "up": code(it["up"]), "down": code(it["down"]), "names": [nm]}
-    return {"op": "execute", "lang": "en", "text": line_text(h["line"])}
+    return {"op": "execute", "lang": lang_of(h["line"]), "text": line_text(h["line"])}
+
+
+def lang_of(line):
+    return "tr" if line.get("pat") in ("P4", "P5") else "en"
 
 
 def baseline_slots(texts):
-    cases = [{"id": "base", "cfg": CFG, "fresh": True, "steps": [{"op": "execute", "lang": "en", "text": t} for t in texts]}]
+    tr = {line_text({"form": "rule_line", "pat": p, "n": n, "w": ""}) for p in ("P4", "P5") for n in ([7, 1, 0], [5, 2, 0])}
+    cases = [{"id": "base", "cfg": CFG, "fresh": True, "steps": [{"op": "execute", "lang": "tr" if t in tr else "en", "text": t} for t in texts]}]
     o = run_harness_stable_day(cases, "c18.base", jobs=1)[0]
     out = {}
     for t, st in zip(texts, o["steps"]):
@@ -117,7 +128,7 @@ def run(rep):
                 texts.add(line_text(h["line"]))
     if not {"baseline", "num", "money", "famq"} <= kinds:
         raise ToolError("vacuous generator: %s" % kinds)
-    base = baseline_slots(sorted(texts | set(BUILTIN_LINES)))
+    base = baseline_slots(sorted(texts | set(BUILTIN_LINES) | {line_text({"form": "rule_line", "pat": p, "n": n, "w": ""}) for p in ("P4", "P5") for n in ([7, 1, 0], [5, 2, 0])}))
     cases = [{"id": "h%d" % i, "cfg": CFG, "fresh": True, "steps": [step_of(h) for h in c["hist"]]} for i, c in enumerate(hists)]
     obs = run_harness_stable_day(cases, "c18.gen", jobs=8)
     for c, case, o in zip(hists, cases, obs):
@@ -222,6 +233,7 @@ def random_trace(rep, base, nhist):
              {"form": "fam_conv", "fam": "zorps", "q": [40, 1, 0], "a": 1, "b": 2}, {"form": "fam_conv", "fam": "zorps", "q": [3, 1, 0], "a": 3, "b": 1},
              {"form": "fam_conv", "fam": "zorps", "q": [40, 1, 0], "a": 1, "b": 3}, {"form": "fam_conv", "fam": "zorps", "q": [2, 1, 0], "a": 2, "b": 1}]
     lines += [{"form": "opaque", "id": i, "text": t} for i, t in enumerate(BUILTIN_LINES)]
+    lines += [{"form": "rule_line", "pat": "P4", "n": [7, 1, 0], "w": ""}, {"form": "rule_line", "pat": "P5", "n": [5, 2, 0], "w": ""}, {"form": "rule_line", "pat": "P4", "n": [5, 2, 0], "w": ""}]
     # a custom rule may carry the name of a built-in rule; deleting by a built-in rule's name deletes custom rules only
     rules = RULES + [{"name": "convert_money", "pats": ["P2"], "beh": "double"}]
     items = [{"idx": 1, "up": [1, 4, 0], "down": [1, 1, 0]}, {"idx": 2, "up": [1, 5, 0], "down": [4, 1, 0]}, {"idx": 3, "up": [1, 1, 0], "down": [5, 1, 0]},
@@ -232,9 +244,13 @@ def random_trace(rep, base, nhist):
         for _ in range(rng.randint(30, 80)):
             x = rng.random()
             if x < 0.25:
-                hs.append({"call": "add_rule", "lang": "xx" if rng.random() < 0.1 else "en", "r": rng.choice(rules)})
+                if rng.random() < 0.25:
+                    hs.append({"call": "add_rule", "lang": "tr", "r": rng.choice(TR_RULES)})
+                else:
+                    hs.append({"call": "add_rule", "lang": "xx" if rng.random() < 0.1 else "en", "r": rng.choice(rules)})
             elif x < 0.4:
-                hs.append({"call": "delete_rule", "lang": "en", "name": rng.choice(["n1", "n2", "n3", "n4", "n9", "convert_money", "small_date", "duration_parse", "number_of"])})
+                hs.append({"call": "delete_rule", "lang": "tr" if rng.random() < 0.25 else "en",
+                           "name": rng.choice(["n1", "n2", "n3", "n4", "n9", "t1", "t2", "convert_money", "small_date", "duration_parse", "number_of"])})
             elif x < 0.45:
                 hs.append({"call": "add_type", "name": "zorps"})
             elif x < 0.55:
@@ -270,7 +286,7 @@ def random_trace(rep, base, nhist):
                     status, slots = ss
                     for s in slots:
                         s["same_as_base"] = same_slot(s, base[case["steps"][k]["text"]])
-                e = {"ev": "execute", "lang": "en", "lines": [h["line"]], "status": status, "obs": [proj.trace_slot(s) for s in slots]}
+                e = {"ev": "execute", "lang": lang_of(h["line"]), "lines": [h["line"]], "status": status, "obs": [proj.trace_slot(s) for s in slots]}
             events.append(e)
             index.append((case, k, st))
             rep.case([case["id"], k], True)
